@@ -86,10 +86,11 @@ def _toy_opt(r):
         # ADVI with a normalizing flow of planar layers: the optimised parameters are the weights of
         # torch modules (torch.nn.Parameter tensors inside torchtree Parameters)
         def planar(i):
+            # default dtype throughout (the base distribution and the latent z have it too)
             return {"id": "planar.%d" % i, "type": "torchtree.nn.Module", "module": "torchtree.nf.planar.PlanarTransform",
-                    "parameters": {"u": scenes.param("flow.u.%d" % i, [[0.1 * (i + 1), -0.05]], dt, True),
-                                   "w": scenes.param("flow.w.%d" % i, [[0.07, 0.02 * (i + 1)]], dt, True),
-                                   "b": scenes.param("flow.b.%d" % i, [0.03 * i], dt, True)}}
+                    "parameters": {"u": scenes.param("flow.u.%d" % i, [[0.1 * (i + 1), -0.05]], None, True),
+                                   "w": scenes.param("flow.w.%d" % i, [[0.07, 0.02 * (i + 1)]], None, True),
+                                   "b": scenes.param("flow.b.%d" % i, [0.03 * i], None, True)}}
 
         spec = [{"id": "joint", "type": "torchtree.nf.energy_functions.EnergyFunctionModel", "x": {"id": "z", "type": "Parameter", "zeros": [4, 2]}, "function": "u_z1"}]
         loss = {"id": "elbo", "type": "ELBO", "samples": [4], "joint": "joint",
@@ -142,7 +143,7 @@ def _toy_opt(r):
     if r.get("convergence") and r["loss"] != "map" and alg != "LBFGS":
         opt["convergence"] = {"type": "VariationalConvergence", "loss": "elbo", "every": r.get("conv_every", 3), "samples": 3,
                               "file_name": scenes.RUN + "/elbo.txt"}
-    if r.get("logger"):
+    if r.get("logger") and r["loss"] != "flow":  # (the flow's weights are defined inside the loss, after the loggers are read)
         opt["loggers"] = [{"id": "logger", "type": "Logger", "parameters": params, "file_name": scenes.RUN + "/opt.csv", "every": 1}]
     spec.append(opt)
     return spec, {"algo": "Optimizer", "algo_id": "opt", "ckpt": CKPT}
